@@ -59,6 +59,9 @@ def shift_ranges(v: Any, src_from: T.Term, src_to: T.Term, shift: int) -> Any:
     return v
 
 
+from .c05 import reads_of as _reads  # noqa: E402
+
+
 def run(prog: Program, rep: Report, tier: str) -> None:
     rep.rule("R8.1", "extraction normal form of every StateMessageParser getter and of the login session equals spec/reply_layout.json", 15)
     rep.rule("R8.2", "response dataclasses: field f is assigned the getter of role f (time_left<-get_time_left, electric_current<-watts_to_amps(power), ...)", 15)
@@ -145,6 +148,11 @@ def run(prog: Program, rep: Report, tier: str) -> None:
                 vb = LS.term_of(prog, bentry, B.MSG)  # accepted equivalent form -> its reference meaning
             shifted = shift_ranges(vb, B.MSG, R, -2 * d["shift_bytes"])
             same = canon(core(shifted)) == canon(core(vr))
+            if not same and len(_reads(core(shifted))) > 1 and len(_reads(core(vr))) == 1:
+                # the broadcast getter combines several reads by arithmetic of its own (another decoding of the field than
+                # the forms the specification lists): whether it means the same number is not something this rule compares
+                rep.undecided("R8.3", f"{fam}: {bg} ~ {rg}", where, f"broadcast getter {bg} decodes the field in a form this rule does not compare ({T.show(core(shifted))[:160]})")
+                continue
             rep.check_term(same, (shifted, vr), "R8.3", f"{fam}: {bg} ~ {rg}", where,
                       f"broadcast getter {bg} shifted by {d['shift_bytes']} bytes is {T.show(core(shifted))[:200]} but the reply getter {rg} is {T.show(core(vr))[:200]}: the two parsers disagree on offset, width or byte order",
                       key=f"R8.3|{fam}|{bg}")
